@@ -1,10 +1,11 @@
 PLAN = {
     "level": "exploration",
     "quick": [replays("C08"), tape("C08", 12000, size=300)],
-    "thorough": [replays("C08"), tape("C08", 120000, size=400)],
+    "thorough": [replays("C08"), tape("C08", 120000, size=400, worker_timeout=4 * 3600)],
     "class_floors": {"has:compatible-scaled-pair-in-regime": 0.1, "has:pair-outside-exp1-regime": 0.1, "imported-units": 0.1, "user-base-unit": 0.3,
                      "depth>=3": 0.08, "consumer:analyser": 0.2, "consumer:flattened": 0.01, "metamorphic:child-permutation": 0.05,
-                     "metamorphic:import-indirection": 0.03, "has:undefined": 0.05},
+                     "metamorphic:import-indirection": 0.03, "has:undefined": 0.05, "fractional-exponents": 0.1,
+                     "parentless-undefined-units": 0.05, "has:imported-base-unit-alias-pair": 0.005},
 }
 CLAIM = {
     "engine": "rapidcheck-tape",
